@@ -19,7 +19,15 @@ BENIGN = re.compile(r"^(DEBUG: |MAGEFILE_\w+=|Running target:|\s*$)")
 # ending inside the body stop the run there; the status itself is C05's
 FAIL_MODES = ["error", "error", "fatal:0", "fatal:0", "fatal:1", "fatal:2", "fatal:3", "fatal:255", "fatal:256", "fatal:-1",
               "custom:0", "custom:0", "custom:-3", "custom:7", "panic-error", "panic-value", "panic-fatal:0", "panic-fatal:5",
-              "panic-custom:0", "osexit:0", "osexit:4"]
+              "panic-custom:0", "osexit:0", "osexit:4",
+              # the PROCESS ends inside the body: killed by a signal it sends itself, or a fatal runtime error
+              "signal:9", "signal:15", "signal:11", "signal:6", "signal:13", "stackoverflow", "signal:9", "stackoverflow"]
+
+
+def death(mode):
+    """the process dies inside the body (no exit status chosen by mage's code: the front end reports 255 and a
+    message of its own where the binary dies by signal n)"""
+    return mode.startswith("signal") or mode == "stackoverflow"
 
 
 def probe_source():
@@ -29,7 +37,14 @@ def probe_source():
     anchor = '\t\tcase "osexit":'
     if anchor not in src:
         return None
-    src = src.replace(anchor, '\t\tcase "custom":\n\t\t\treturn &codeErr{code, msg}\n\t\tcase "panic-custom":\n\t\t\tpanic(&codeErr{code, msg})\n' + anchor, 1)
+    src = src.replace(anchor, '\t\tcase "custom":\n\t\t\treturn &codeErr{code, msg}\n\t\tcase "panic-custom":\n\t\t\tpanic(&codeErr{code, msg})\n'
+                      '\t\tcase "signal":\n\t\t\tsyscall.Kill(os.Getpid(), syscall.Signal(code))\n\t\t\ttime.Sleep(300 * time.Millisecond)\n'
+                      '\t\t\tsyscall.Kill(os.Getpid(), syscall.SIGKILL)\n\t\t\tselect {}\n'
+                      '\t\tcase "stackoverflow":\n\t\t\tdebug.SetMaxStack(1 << 16)\n\t\t\tvar f func(n int) int\n\t\t\tf = func(n int) int { return f(n+1) + 1 }\n'
+                      '\t\t\tfmt.Fprintln(os.Stderr, f(0))\n' + anchor, 1)
+    if 'import (\n' not in src:
+        return None
+    src = src.replace('import (\n', 'import (\n\t"runtime/debug"\n\t"syscall"\n\t"time"\n', 1)
     return src + """
 type codeErr struct {
 	code int
@@ -64,14 +79,26 @@ def gen_lines(rng, proj, inf, n):
             for d in rng.sample(alld, min(len(alld), rng.choice([1, 1, 2]))):
                 fail[str(d)] = rng.choice(FAIL_MODES if probe_source() else [m for m in FAIL_MODES if "custom" not in m])
         ed = proj.get("edit")
-        if ed and words and rng.random() < 0.5:
+        imp = bool(ed) and ed["kind"].startswith("imp-")
+        goenv = None
+        if imp:
+            if k < 3:
+                # the first runs after the edit, each with its own copy of the cache directory and its own go environment
+                words = c04gen.gen_words(rng, inf)
+                ignore = None
+                # (a fresh GOCACHE, -trimpath and -tags recompile the standard library: ~15 cpu-seconds each)
+                light = ["gocache-off", "gocache-relative", "home-unset", "tmpdir-elsewhere", "gopath-elsewhere"]
+                goenv = "gocache-new" if k == 0 else rng.choice(light if k == 1 else [n for n in c04gen.GOENVS if n not in ("default", "gocache-new")])
+            else:
+                goenv = "default"
+        if ed and words and (rng.random() < 0.5 or (imp and k < 3)):
             # mention the edited target first (or, after a rename, its old name)
             t = [t for t in c04gen.all_targets(inf) if t["def"] == ed["def"]][0]
             if ed["kind"] == "rename" and rng.random() < 0.3:
                 words = [c04gen.rand_case(rng, ed["old_name"])] + words
             else:
                 words = [c04gen.rand_case(rng, t["tname"])] + [c04gen.arg_word(rng, ty, inf, 1.0) for ty in t["args"]] + words
-        lines.append({"words": words, "ignore": ignore, "fail": fail, "rebuild": (k < 2 or rng.random() < 0.13) and not ed,
+        lines.append({"words": words, "ignore": ignore, "fail": fail, "rebuild": ((k < 2 or rng.random() < 0.13) and not ed) or imp, "goenv": goenv,
                       "mode": c04gen.gen_mode(rng), "argv0": c04gen.gen_argv0(rng, inf, proj.get("binname")),
                       "streams": c04gen.gen_streams(rng)})
     return lines
@@ -152,7 +179,7 @@ def classify(o, failing=()):
         if o["rc"] != 2:
             return None
         return ("exit2", {"unknown-target": "unknown", "missing-arg": "missing"}.get(o["stderr"]) or ("bad:%s" % o["bad"]))
-    if o["calls"] and o["calls"][-1][0] in failing and o["stderr"] in ("target-error", "none") and o["listed"] is None:
+    if o["calls"] and o["calls"][-1][0] in failing and o["listed"] is None:
         return "failed"
     if o["rc"] == 0:
         return "listed" if o["listed"] is not None else "done"
@@ -167,7 +194,10 @@ NOMODE = {"verbose": None, "debug": False, "timeout": None, "spell": 0}
 def run_exe(mage, argv, cwd, env, executable=None, timeout=180):
     """like Mage.run, for a compiled binary started under a chosen argv[0] (PATH lookup in env when bare)"""
     import subprocess
-    e = mage.env(env)
+    e = mage.env({k_: v for k_, v in env.items() if v is not None})
+    for k_, v in env.items():
+        if v is None:
+            e.pop(k_, None)          # a variable that must be unset
     for attempt in range(5):
         try:
             p = subprocess.run(argv, executable=executable, cwd=cwd, env=e, input=b"", timeout=timeout,
@@ -185,6 +215,7 @@ def run_exe(mage, argv, cwd, env, executable=None, timeout=180):
 
 
 PTY_OK = [True]
+SHM_DIRS = []
 
 
 def run_streams(mage, argv, cwd, env, spec, scratch, timeout=30):
@@ -340,10 +371,21 @@ def start_compiled(bindir, k, neutral, named, a, d):
 def run_project(mage, ctx, proj, lines):
     files = c04gen.render(proj)
     history = bool(proj.get("prev_files"))
+    imp_history = history and proj["edit"]["kind"].startswith("imp-")
+    hcache = os.path.join(ctx.tmp, "hcache", proj["name"])       # an imported-package history has MAGEFILE_CACHE directories of its own
     if history:
-        # first generation: built and run once through the cached route (hash mode), then the edit
+        # first generation: built and run once through the cached route (hash mode), then the edit.
+        # When only a mage:import'ed package is edited the file name of the cached binary does not change
+        # (hash mode is not meant to notice that); the route under test is then the DEFAULT mode, which rebuilds
+        # whenever the go tool has a build cache - under each go environment of the lines
         d = make_project(mage, proj["prev_files"], proj["name"])
-        r0 = mage.run(d, ["-l"], env={"MAGEFILE_HASHFAST": "1"})
+        if imp_history:
+            r0 = mage.run(d, ["-l"], cache=os.path.join(hcache, "c"))
+            for i_ in range(len(lines)):
+                if (lines[i_].get("goenv") or "default") != "default":
+                    sh(["cp", "-r", os.path.join(hcache, "c"), os.path.join(hcache, "c%d" % i_)], check=True)
+        else:
+            r0 = mage.run(d, ["-l"], env={"MAGEFILE_HASHFAST": "1"})
         if r0["rc"] != 0:
             return {"build_error": r0}
         for rel in set(proj["prev_files"]) - set(files):
@@ -382,10 +424,25 @@ def run_project(mage, ctx, proj, lines):
         t0 = time.time()
         # the front end hands the words over unchanged whether it rebuilds or reuses the binary, and a
         # rebuild costs ~0.1-1 s: the rebuilding route is taken for the lines marked "rebuild" only
-        r1 = mage.run(d, ffl + ln["words"], env=dict(env, **fenv)) if ln.get("rebuild") or first else None
+        if imp_history:
+            gname = ln.get("goenv") or "default"
+            genv = {"MAGEFILE_CACHE": os.path.join(hcache, "c" if gname == "default" else "c%d" % k)}
+            for var, val in c04gen.GOENVS[gname][0].items():
+                if val == "NEW":
+                    val = os.path.join(hcache, "new%d_%s" % (k, var))          # does not exist yet
+                elif val == "SHM":
+                    val = os.path.join("/dev/shm" if os.access("/dev/shm", os.W_OK) else ctx.tmp, "verif-c04-%d-%s-%d" % (os.getpid(), proj["name"], k))
+                    os.makedirs(val, exist_ok=True)
+                    SHM_DIRS.append(val)
+                genv[var] = val
+            r1 = run_exe(mage, [mage.bin] + ffl + ln["words"], d, dict(env, **fenv, **genv))
+            r2 = None
+        else:
+            r1 = mage.run(d, ffl + ln["words"], env=dict(env, **fenv)) if ln.get("rebuild") or first else None
         first = False
         t1 = time.time()
-        r2 = mage.run(d, ffl + ln["words"], env=dict(env, MAGEFILE_HASHFAST="1", **fenv))
+        if not imp_history:
+            r2 = mage.run(d, ffl + ln["words"], env=dict(env, MAGEFILE_HASHFAST="1", **fenv))
         t2 = time.time()
         argv0, executable, cwd, penv = start_compiled(bindir, k, neutral, named, ln.get("argv0"), d)
         r3 = run_exe(mage, [argv0] + bfl + ln["words"], cwd, dict(env, **benv, **penv), executable=executable)
@@ -396,7 +453,7 @@ def run_project(mage, ctx, proj, lines):
         for si, spec in enumerate(ln.get("streams") or []):
             scratch = os.path.join(bindir, "io%d_%d" % (k, si))
             os.makedirs(scratch, exist_ok=True)
-            if spec.get("via") == "mage":
+            if spec.get("via") == "mage" and not imp_history:
                 rv = run_streams(mage, [mage.bin] + ffl + ln["words"], d, dict(env, MAGEFILE_HASHFAST="1", **fenv), spec, scratch)
             else:
                 rv = run_streams(mage, [neutral] + bfl + ln["words"], d, dict(env, **benv), spec, scratch)
@@ -404,7 +461,8 @@ def run_project(mage, ctx, proj, lines):
             if rv["err"] is None:
                 ov["stderr"] = ov["bad"] = None       # not observed
             variants.append(ov)
-        res.append([observe(r2), observe(r1) if r1 else None, observe(r3), (r2["err"] + r2["out"])[-300:], variants])
+        prim = r2 if r2 is not None else r3      # (an imported-package history has no hash-mode route: the fresh compiled binary is the reference)
+        res.append([observe(prim), observe(r1) if r1 else None, observe(r3), (prim["err"] + prim["out"])[-300:], variants])
     return {"runs": res}
 
 
@@ -513,7 +571,17 @@ def run(ctx):
                 # (new target / changed parameter list / renamed target); the lines are run against the edited
                 # package with the same cache in hash mode - the cached route must follow the current files
                 proj["split"] = c04gen.gen_split(rng, proj, force_first=True)
-                proj = c04gen.gen_edit(rng, proj)
+                other = None
+                if k % 8 == 7:
+                    # ... or ONLY a mage:import'ed package is edited; the lines then go through the default
+                    # (rebuilding) mode, the first three under a go-tool environment of their own
+                    for _ in range(20):
+                        other = c04gen.gen_edit_import(rng, proj)
+                        if other is not None:
+                            break
+                        proj = c04gen.gen_project(rng, "p%04d" % k)
+                        proj["split"] = c04gen.gen_split(rng, proj, force_first=True)
+                proj = other or c04gen.gen_edit(rng, proj)
             elif rng.random() < 0.5:
                 proj["split"] = c04gen.gen_split(rng, proj)
             inf0 = c04gen.info(proj)
@@ -553,7 +621,7 @@ def run(ctx):
     nviol = 0
     dist = {"ends": {}, "words_per_line": {}, "name_kinds": {"plain": 0, "ns": 0, "import": 0, "import-ns": 0, "alias": 0},
             "param_types": {}, "arity": {}, "modes": {}, "binary_started_as": {}, "fail_lines": 0, "no_words": 0, "projects_with_imports": 0, "projects_with_aliases": 0,
-            "projects_with_default": 0, "projects_with_several_magefiles": 0, "history_edits": {}, "streams": {}, "oracle_only_non_ascii": 0, "projects_non_ascii_names": 0}
+            "projects_with_default": 0, "projects_with_several_magefiles": 0, "history_edits": {}, "go_environments": {}, "go_environment_refused": 0, "streams": {}, "oracle_only_non_ascii": 0, "projects_non_ascii_names": 0}
     for pi, ((proj, lines), inf, res) in enumerate(zip(work, infos, results)):
         if "build_error" in res:
             # the generator only emits packages in the documented form: mage must build them
@@ -583,6 +651,21 @@ def run(ctx):
             got_calls = [(int(c[0][1:]), [tuple(a) for a in c[1]]) for c in o1["calls"]]
             got_end = classify(o1, set("d%s" % k_ for k_ in ln["fail"]))
             clause = None
+            # a body in which the PROCESS dies (signal, fatal runtime error): the status and the stderr text are
+            # the kernel's / the runtime's / the front end's own (255 + "failed to run compiled magefile" through
+            # mage); what is compared is the CALL trace and that the status is not 0
+            deaths = set("d%s" % k_ for k_, v in ln["fail"].items() if death(v))
+            def norm(o):
+                if o is not None and o["calls"] and o["calls"][-1][0] in deaths:
+                    return dict(o, rc=(1 if o["rc"] != 0 else 0), stderr="(process died)" if o["stderr"] is not None else None, bad=None)
+                return o
+            gname = ln.get("goenv") or "default"
+            if o2 is not None and c04gen.GOENVS[gname][1] and o2["rc"] == 1 and not o2["calls"] and o2["stderr"] == "compile-error" and o2["listed"] is None:
+                o2 = None          # the go tool refuses to build in this environment: nothing ran at all
+                dist["go_environment_refused"] += 1
+            if gname != "default":
+                dist["go_environments"][gname] = dist["go_environments"].get(gname, 0) + 1
+            o1, o2, o3, variants = norm(o1), norm(o2), norm(o3), [norm(v) for v in variants]
             if (o2 is not None and o1 != o2) or o1 != o3:
                 clause = "cached binary / mage (rebuilding) / compiled binary behave differently: %s | %s | %s" % (json.dumps(o1)[:300], json.dumps(o2)[:300], json.dumps(o3)[:300])
             elif got_calls != want_calls:
@@ -660,6 +743,8 @@ def run(ctx):
         for idx, body in mism[:3]:
             ctx.violation({"kind": "model-vs-implementation", "correspondence": "Run/eval_C04.mismatches", "model_says": body[:400]},
                           case=index[idx], found_input=False)
+    for d_ in SHM_DIRS:
+        shutil.rmtree(d_, ignore_errors=True)
     cov = ctx.coverage
     cov["evaluations"] = sum(len(res["runs"]) for res in results if "runs" in res)     # every case is judged by the oracle
     cov["model_evaluated"] = len(items)                                                 # ... and these also by the Coq model (ASCII names)
